@@ -3,6 +3,7 @@ import CgtModel.Spec
 import CgtModel.Lemmas.Conserve
 import CgtModel.Lemmas.LegWindow
 import CgtModel.Lemmas.SpecEquiv
+import CgtModel.Lemmas.SpecTable
 import CgtModel.Lemmas.Sorted
 import CgtModel.Props.C02
 /-! # C01 — Same Day, then 30-day (earliest first), then Section 104
@@ -18,9 +19,12 @@ are —, no capital returns / accumulations, at most one SELL line per day after
 allowable cost, acquisition date, in order — and the closing pool (quantity and cost) that `Spec`'s
 claims matrix (pass 2) and pool walk (pass 3) produce on the same days (`Lemmas/SpecEquiv.lean`: the
 look-ahead of a disposal is its row of the matrix; the carried claims are the column sums; the day
-step is the walk step). What remains between this and `C01_statement` is the data step: that
-`Spec.table t l` (built by insertion from the raw lines) is `daysOf t (preprocess l)` seen through
-`ofDay` — both are evaluated on every run. Also proved, the priority structure the statute prescribes:
+step is the walk step); `C01_ledger` — **from the raw ledger**: `Spec.table t l`, built by insertion
+from the raw lines, is `daysOf t (preprocess l)` seen through `ofDay` (`Lemmas/SpecTable.lean`:
+insertion commutes, fills merge as they absorb, grouping is insertion from the last line to the
+first), so for every validator-clean ledger with valid dates, no cost events and at most one SELL
+line per security and day after merging, every security's legs and closing pool are those of
+`Spec.identify` on the raw ledger. Also proved, the priority structure the statute prescribes:
 
 * `window_pinned`, `C01_window` — a 30-day leg's acquisition lies at most `bnbWindowDays = 30` days
   after the disposal, and strictly after it when the following days are later days; a day at exactly
@@ -307,5 +311,23 @@ theorem C01_matcher_is_statute (t : String) (ds : List Day) (hs : ds.Pairwise (f
     sp.2.1 = poolQ' pool ∧ sp.2.2 = poolC' pool ∧
     legs.map legView = sp.1.flatMap (fun dsp => dsp.legs.map slegView) :=
   runTicker_eq_spec t bnbWindowDays ds hs hok hne hone pool legs h
+
+/-- **C01 from the raw ledger**: for every validator-clean ledger with valid dates that the matcher
+    accepts, and every security whose days carry no capital return / accumulation and at most one SELL
+    line each (adjacent same-day SELL lines are merged first), the matcher's legs — rule, quantity,
+    allowable cost, acquisition date, in order — and closing pool are exactly those of the
+    independent evaluation `Spec.identify` of s105(1), s106A and s104 on the raw lines. -/
+theorem C01_ledger (l : List Tx) (hw : WellFormed l) (hd : Spec.DatesOk l) (rs : List TickerResult)
+    (h : run bnbWindowDays l = .ok rs) :
+    ∀ r ∈ rs, noEvents (daysOf r.ticker (preprocess l)) →
+      (∀ d ∈ daysOf r.ticker (preprocess l), d.sells.length ≤ 1) →
+      let s := Spec.identify bnbWindowDays r.ticker l
+      s.poolQ = poolQ' r.pool ∧ s.poolC = poolC' r.pool ∧
+      r.legs.map legView = s.disposals.flatMap (fun dsp => dsp.legs.map slegView) := by
+  intro r hr hne hone
+  have hrun := C02.run_result bnbWindowDays l rs h r hr
+  have := C01_matcher_is_statute r.ticker _ (daysOf_strict l r.ticker) (wellFormed_days l hw r.ticker).1 hne hone r.pool r.legs hrun
+  rw [← table_eq_days r.ticker l hw hd] at this
+  exact this
 
 end Cgt.C01
